@@ -32,7 +32,7 @@ def random_case(prop, rng, tier):
     n = rng.randrange(2, 9)
     tasks = []
     for i in range(n):
-        t = {'id': rng.randrange(1, 6) * 10 + i, 'parent': rng.choice([None] + list(range(i))) if i and rng.random() < 0.5 else None,
+        t = {'id': rng.randrange(1, 6) * 10 + i, 'parent': rng.choice([None] + list(range(i)) + [0, 0]) if i and rng.random() < 0.6 else None,
              'estimate': rng.choice([None, '0', '3', '5/2', '8']), 'spent': rng.choice([None, None, '1', '8']), 'dict': {}}
         if rng.random() < 0.7:
             t['dict']['prio'] = rng.choice([None, ['n', '1'], ['n', '2'], ['n', '3'], ['n', '5/2']])
@@ -42,7 +42,8 @@ def random_case(prop, rng, tier):
             t['dict']['x_in_'] = ['n', rng.choice(NUMS)]
         tasks.append(t)
     filters = []
-    for _ in range(rng.randrange(1, 4)):
+    nf = rng.choice([1, 1, 1, 2, 2, 3]) if rng.random() < 0.9 else 0      # one case in ten: the empty filter combination
+    for _ in range(nf):
         a = rng.choice(ATTRS)
         k = rng.choice(KINDS)
         numeric = a in ('prio', 'id', 'parent_id', 'estimate', 'spent', 'x_in_')
@@ -59,6 +60,13 @@ def random_case(prop, rng, tier):
             v = ['one', rng.choice([None, ['n', '1']])]
         else:
             v = ['one', (['n', rng.choice(NUMS + ['11', '21', '30'])] if numeric else ['s', rng.choice(STRS)]) if rng.random() < 0.9 else None]
+        if v[0] == 'one' and rng.random() < 0.6:
+            # take the value from the population, so that equality and comparisons select proper subsets
+            src = rng.choice(tasks)
+            pv = {'id': ['n', str(src['id'])], 'estimate': src['estimate'] and ['n', src['estimate']], 'spent': src['spent'] and ['n', src['spent']],
+                  'parent_id': None if src['parent'] is None else ['n', str(tasks[src['parent']]['id'])]}.get(a, src['dict'].get(a))
+            if pv is not None:
+                v = ['one', pv]
         filters.append([a + k, v])
     # distinct keywords only (kwargs)
     seen, fs = set(), []
@@ -66,6 +74,10 @@ def random_case(prop, rng, tier):
         if f[0] not in seen:
             seen.add(f[0])
             fs.append(f)
+    if rng.random() < 0.08:
+        # a callable filter (applied as a predicate); the keyword filters are not used then
+        return {'tasks': tasks, 'filters': [], 'source': rng.choice(['tasks', 'roots', 'children0']), 'action': 'query', 'floats': False,
+                'key': rng.choice([['id_mod', rng.randrange(2, 4)], ['has', rng.choice(['prio', 'tag'])], ['leaf'], ['const', rng.random() < 0.5]])}
     return {'tasks': tasks, 'filters': fs, 'source': rng.choice(['tasks', 'roots', 'children0']), 'action': rng.choice(['query', 'query', 'bulk', 'remove']),
             'floats': rng.random() < 0.4}
 
@@ -104,7 +116,7 @@ def snapshot(w, objs):
 
 def execute(prop, case):
     w, objs = build(case)
-    src = w.tasks if case['source'] == 'tasks' else (w.roots if case['source'] == 'roots' else objs[0].children)
+    src = w.tasks if case['source'] == 'tasks' else (w.roots if case['source'] == 'roots' else max(objs, key=lambda o: len(o.children)).children)
     src_list = list(src)
     pos = {id(o): i for i, o in enumerate(src_list)}
     uid = {id(o): u for u, o in enumerate(objs)}
@@ -122,6 +134,16 @@ def execute(prop, case):
                 strs.add(v)
     rec['re'] = [[p, s, bool(_re.search(p, s))] for p in pats for s in strs]
     before = snapshot(w, objs)
+    if case.get('key'):
+        k = case['key']
+        pred = {'id_mod': lambda t: t.id % k[1] == 0, 'has': lambda t: k[1] in t.__dict__ and t.__dict__[k[1]] is not None,
+                'leaf': lambda t: len(t.children) == 0, 'const': lambda t: k[1]}[k[0]]
+        res = src(pred)
+        rec['obs'] = ['ok', [pos[id(o)] for o in res]]
+        rec['unchanged'] = snapshot(w, objs) == before
+        rec['extra'] = [id(o) for o in res] == [id(o) for o in src_list if pred(o)]
+        rec['callable'] = True
+        return rec
     try:
         res = src(**kwargs)
         rec['obs'] = ['ok', [pos[id(o)] for o in res]]
@@ -152,6 +174,10 @@ def execute(prop, case):
 
 
 def judge(prop, case, rec, out):
+    if rec.get('callable'):
+        # no keyword filter is involved: the oracle is the predicate itself (evaluated by the harness), the model is not consulted
+        mon = {'pure': rec['unchanged'], 'callableExact': rec['extra']}
+        return Outcome(case, True, mon, {}, 0 < len(rec['obs'][1]) < len(rec['tasks']), common.digest(case), {})
     m = out['model']
     eq = m == rec['obs'] or (m[0] == 'err' and rec['obs'][0] == 'err' and m[1] == rec['obs'][1])
     info = {} if eq else {'model': m, 'impl': rec['obs']}
